@@ -50,6 +50,8 @@ def gen_index(i: int, seed: int, tier: str) -> dict[str, Any]:
         algo = "enc" if kind == "real" else rng.choice(["enc", "auth"])
         frames.append({"kind": kind, "algo": algo, "len": ln, "short": ln == 2 and rng.random() < 0.5,
                        "ext_format": 0, "hops": rng.randrange(8), "prio": rng.randrange(4),
+                       # transport PDU: T_Data_Group or T_Data_Tag_Group (the only other group TPDU; non-zero TPCI bits)
+                       "tpci": "group" if kind == "ref" else rng.choice(["group", "group", "tag"]),
                        # the one sending instance sends under several source addresses (explicit source_address, or its
                        # own address changing as after a tunnel reconnect)
                        "src_i": rng.randrange(3), "src_via": rng.choice(["explicit", "current"])})
@@ -73,7 +75,7 @@ def run(plan: dict[str, Any]) -> dict[str, Any]:
     from xknx.secure.data_secure_asdu import SecureData, SecurityControlField
     from xknx.telegram import GroupAddress, IndividualAddress, Telegram
     from xknx.telegram.apci import GroupValueWrite
-    from xknx.telegram.tpci import TDataGroup
+    from xknx.telegram.tpci import TDataGroup, TDataTagGroup
 
     R = Run(plan, max_time=5000.0)
     loop = R.loop
@@ -128,17 +130,20 @@ def run(plan: dict[str, Any]) -> dict[str, Any]:
                 data = rng.randbytes(ln - 2)
                 apdu = bytes((0x00, 0x80)) + data
                 payload = GroupValueWrite(DPTArray(tuple(data)))
-            rec = {"kind": f["kind"], "algo": f["algo"], "len": ln, "apdu": apdu, "dst": dst}
+            tag = f.get("tpci") == "tag"
+            rec = {"kind": f["kind"], "algo": f["algo"], "len": ln, "apdu": apdu, "dst": dst, "tag": tag}
             if f["kind"] == "real":
                 src = real_srcs[f.get("src_i", 0)]
                 rec["src"] = src
                 if f.get("src_via") == "explicit":
                     tx.xknx.telegrams.put_nowait(Telegram(destination_address=GroupAddress(dst), payload=payload,
-                                                          source_address=IndividualAddress(src)))
+                                                          source_address=IndividualAddress(src),
+                                                          tpci=TDataTagGroup() if tag else None))
                 else:
                     await tx.xknx.telegrams.join()
                     tx.xknx.current_address = IndividualAddress(src)
-                    tx.xknx.telegrams.put_nowait(Telegram(destination_address=GroupAddress(dst), payload=payload))
+                    tx.xknx.telegrams.put_nowait(Telegram(destination_address=GroupAddress(dst), payload=payload,
+                                                          tpci=TDataTagGroup() if tag else None))
                     await tx.xknx.telegrams.join()
             else:
                 src = ia_x if f["kind"] == "xknx_asdu" else ia_ref
@@ -151,18 +156,23 @@ def run(plan: dict[str, Any]) -> dict[str, Any]:
                     sd = SecureData.init_from_plain_apdu(
                         key=keys[dst], apdu=apdu, scf=SecurityControlField.from_knx(scf), sequence_number=seq,
                         address_fields_raw=src.to_bytes(2, "big") + dst.to_bytes(2, "big"),
-                        address_type=CEMIAddressType.GROUP, frame_format=CEMIFrameFormat.STANDARD, tpci=TDataGroup())
+                        address_type=CEMIAddressType.GROUP, frame_format=CEMIFrameFormat.STANDARD,
+                        tpci=TDataTagGroup() if tag else TDataGroup())
                     asdu = sd.to_knx()
                     # the independent implementation agrees for authenticated encryption (C19's clause); for the
                     # authentication-only algorithm no real-world vector exists, so a difference is only a probe
                     mine = C.ds_secure(keys[dst], apdu, scf, seq, src, dst, True, 0, 0)
-                    if mine != asdu:
+                    if tag:
+                        # no anchor for non-zero TPCI bits (see C19's note): xknx-to-xknx acceptance is what is judged here
+                        R.probes["tag_group_frames"] += 1
+                    elif mine != asdu:
                         if f["algo"] == "enc":
                             R.violate("C19.conformance", "init_from_plain_apdu!=reference", f"len {ln}: {asdu.hex()} vs {mine.hex()}")
                         else:
                             R.probes["auth_only_differs_from_unanchored_reference"] += 1
                 ctrl1 = (0xB0 if ln + 11 <= 15 else 0x30) | (f["prio"] << 2)
-                to_bus(D.secure_frame(keys[dst], apdu, seq, src, dst, scf=scf, ctrl1=ctrl1, hops=f["hops"], asdu=asdu))
+                to_bus(D.secure_frame(keys[dst], apdu, seq, src, dst, scf=scf, ctrl1=ctrl1, hops=f["hops"], asdu=asdu,
+                                      tpci=0x04 if tag else 0x00))
             sent.append(rec)
             await asyncio.sleep(rng.choice([0.0, 0.001, 0.02]))
         await asyncio.sleep(5.0)
@@ -170,7 +180,9 @@ def run(plan: dict[str, Any]) -> dict[str, Any]:
         await rx.xknx.stop()
 
     R.execute(main())
+    # T_Data_Tag_Group telegrams are handed to management, not to the telegram queue: both are "delivered"
     got = [(d["src"], d["dst"], d["apdu"], d["secure"]) for d in rx.delivered]
+    got += [(d["src"], d["dst"], d["apdu"], d["secure"]) for d in rx.mgmt_seen if d["tpci"] == "TDataTagGroup"]
     ok = True
     for s in sent:
         k = sum(1 for g in got if g[0] == s["src"] and g[1] == s["dst"] and g[2] == s["apdu"])
